@@ -66,6 +66,10 @@ def unit_rac(eng):
         ([".extern all\na: 1: nop\nbr 1\nb: 1: nop\nbr 1\n"], "ok", "a000fe01a000fe01"),
         ([".extern all\na: 1: nop\n", ".extern all\nb: 1: nop\nbr 1\n"], "ok", "a000a000fe01"),
     ]
+    # the scope prefix and the label spelling must concatenate injectively: label 13 of scope 2 is not label 3 of scope 21 (seed C11h)
+    cases.append((["".join("L%d: 3: nop\n13: nop\n23: nop\nbr 3\n" % k for k in range(32))], "ok", "a000a000a000fc01" * 32))
+    for j in range(18, 25):
+        cases.append((["".join("L%d: 13: nop\n%s" % (k, "br 3\n" if k == j else "") for k in range(32))], "fail", None))
     jobs = [{"kind": "asm", "sources": s} for s, _, _ in cases]
     res = driver.native(jobs, driver.tree_root())
     bad = []
@@ -127,4 +131,4 @@ def replay(o, tree):
             os.environ.pop("PDPY11_SRC", None)
         else:
             os.environ["PDPY11_SRC"] = old
-    return dict(jobs=None, experiment="16 scoping / linking programs on the real assembler", observed=rr["detail"][:800], reproduced=rr["status"] == "failed")
+    return dict(jobs=None, experiment="scoping / linking programs on the real assembler", observed=rr["detail"][:800], reproduced=rr["status"] == "failed")
